@@ -162,14 +162,14 @@ def c09_case(inp):
     return nontrivial(inp["values"])
 
 
-@deal.ensure(lambda algo, values, B, opt, result: result <= (17 * opt) // 10 and (algo != "ffd" or 9 * result <= 11 * opt + 6) and (algo != "bfd" or 9 * result <= 11 * opt + 36),
+@deal.ensure(lambda algo, values, B, opt, fmt, result: result <= (17 * opt) // 10 and (algo != "ffd" or 9 * result <= 11 * opt + 6) and (algo != "bfd" or 9 * result <= 11 * opt + 36),
              message="C09: bin-count bound violated on a planted perfect packing")
-def c09_planted(algo, values, B, opt):
-    return run_pack(algo, values, B, outputtype=out.BinCount)[0]
+def c09_planted(algo, values, B, opt, fmt):
+    return run_pack(algo, values, B, fmt, outputtype=out.BinCount)[0]
 
 
 def c09_planted_case(inp):
-    c09_planted(inp["algo"], inp["values"], inp["B"], inp["opt"])
+    c09_planted(inp["algo"], inp["values"], inp["B"], inp["opt"], inp.get("fmt", "list"))
     return True
 
 
